@@ -2,22 +2,41 @@
 
   C18.1 PubKeyV4.fingerprint hashes  99 || len2(6+publen) || 04 || time4 || alg1 || material[:publen]  with SHA-1 (RFC 4880 12.2)
   C18.2 the time / algorithm / material terms are the same terms PubKeyV4.__bytearray__ exports after the version octet
-  C18.3 publen of every private key-material class resolves (C3 MRO) to the __len__ of its public sibling
+  C18.3 publen of every private key-material class computes the very term the __len__ of its public sibling computes (C3 MRO)
   C18.4 Fingerprint.keyid / shortid are the low 64 / 32 bits; PGPKey.fingerprint delegates to the key packet
+  C18.5 creation time is serialised with a UTC-correct idiom wherever it is hashed or exported
+  C18.6 the public twin is built from copies of the private packet's own public terms
+  C18.7 issuer key id / issuer fingerprint / recipient key id are those of the operating key itself
+
+Every rule is decided on interpreter values (byte terms, call / store events, return values); nothing compares source text,
+local names or statement shapes.
 """
 import ast
+import re
 
-from sa.interp import Interp, Scenario, Sym, Const, Bytes, render, render_items, merge_consts, render_item
+from sa.interp import Interp, Scenario, Bytes, render, render_items, merge_consts, render_item, lin_norm, lin_parse, sl, alpha
 from sa.templates import C, INT, SYM, Pred, match
-from sa.loader import AnalysisError, dotted
+from sa.loader import AnalysisError
 from sa import tables
 from sa import families
-from sa.timeidiom import check_time_sites, UTC_TIME_FORMS
+from sa.timeidiom import check_time_sites, is_utc_seconds
+
+noinline = lambda f: False  # noqa: E731
 
 
 def norm_fp_items(items):
-    """SLICE(INT(2;x);;1) SLICE(INT(2;x);-1;)  ==  INT(2;x)   (high and low octet of a two-octet number)"""
-    its = merge_consts(items)
+    """Normal form of a hashed / exported octet sequence:
+       SLICE(INT(2;x);;1) SLICE(INT(2;x);-1;)  ==  INT(2;x)   (high and low octet of a two-octet number)
+       BYTE(x)                                 ==  INT(1;x)   (one octet either way; x < 256 for every algorithm id)
+       BYTE(4), INT(1;4)                       ==  C(04)      (an octet given as a number)"""
+    its = []
+    for it in items:
+        if it[0] == 'BYTE':
+            it = ('INT', '1', it[1])
+        if it[0] == 'INT' and it[1].isdigit() and it[2].isdigit() and 0 < int(it[1]) <= 8 and int(it[2]) < 256 ** int(it[1]):
+            it = ('C', int(it[2]).to_bytes(int(it[1]), 'big'))
+        its.append(it)
+    its = merge_consts(its)
     out = []
     i = 0
     while i < len(its):
@@ -34,10 +53,25 @@ def norm_fp_items(items):
     return out
 
 
+def low_digits(text, base):
+    """n if `text` is the slice term of the last n items of `base` (base[-n:], base[len(base) - n:], .. [: len(base)]), else None."""
+    m = re.match(r'^SLICE\((%s|str\(%s\));(.*);(.*)\)$' % (re.escape(base), re.escape(base)), text or '')
+    if not m:
+        return None
+    lo, hi = m.group(2), m.group(3)
+    lens = ('len(%s)' % base, 'len(str(%s))' % base)
+    if hi not in ('',) + lens:
+        return None
+    terms, c = lin_parse(lo) if lo else ({}, 0)
+    if c < 0 and (terms == {} or terms in ({lens[0]: 1}, {lens[1]: 1})):
+        return -c
+    return None
+
+
 def run(rep, prog, tier):
     rep.rule('C18.1', 'fingerprint hash input = RFC 4880 12.2 layout under SHA-1', floor=2)
     rep.rule('C18.2', 'fingerprint terms agree with the exported public-key packet body; packet version is 4', floor=4)
-    rep.rule('C18.3', 'publen of each private class resolves to the __len__ of its public sibling', floor=9)
+    rep.rule('C18.3', 'publen of each private class computes the term the __len__ of its public sibling computes', floor=9)
     rep.rule('C18.4', 'key id = last 16 hex digits, short id = last 8; PGPKey.fingerprint delegates to the packet', floor=3)
     rep.rule('C18.6', 'the public twin is built from copies of the private packet\'s own public terms (so it has the same fingerprint)', floor=20)
     rep.rule('C18.7', 'issuer key id, issuer fingerprint and recipient key id written are those of the operating key itself', floor=8)
@@ -47,71 +81,105 @@ def run(rep, prog, tier):
     ci = prog.cls('pgpy.packet.packets', 'PubKeyV4')
     fp = prog.method('pgpy.packet.packets', 'PubKeyV4', 'fingerprint')
     rep.saw(fn=fp)
-    outs = Interp(prog, Scenario(inline=lambda f: False)).run(fp)
+    outs = Interp(prog, Scenario(inline=noinline)).run(fp)
     rep.analysed['paths'] += len(outs)
+    PLEN = 'self.keymaterial.publen()'
+    MAT = 'self.keymaterial.__bytearray__()'
     hashed = None
+    if not any(not s.raised for s in outs):
+        raise AnalysisError('PubKeyV4.fingerprint never returns')
     for s in outs:
+        if s.raised:
+            continue
         if not s.hashes:
             rep.violation('C18.1', 'PubKeyV4.fingerprint', 'no digest taken', 'the fingerprint is not a hash', where=fp.where)
             continue
-        alg, items, line = s.hashes[-1]
-        items = norm_fp_items(items)
-        hashed = items
-        rep.check(alg.lower() in ('sha1', "'sha1'"), 'C18.1', 'PubKeyV4.fingerprint', 'hash algorithm %s' % alg,
+        alg, raw_items, line = s.hashes[-1]
+        items = norm_fp_items(raw_items)
+        rep.check(alg.strip('\'"').lower() in ('sha1', 'sha-1'), 'C18.1', 'PubKeyV4.fingerprint', 'hash algorithm %s' % alg,
                   'a V4 fingerprint is a SHA-1 digest', where=fp.where, expected='sha1', found=alg)
-        PLEN = 'self.keymaterial.publen()'
-        MAT = 'self.keymaterial.__bytearray__()'
 
         def time_pred(it):
-            return it[0] == 'INT' and it[1] == '4' and it[2].replace('self.created', 'X') in UTC_TIME_FORMS
+            return it[0] == 'INT' and it[1] == '4' and is_utc_seconds(it[2], of='self.created')
 
         def len_pred(it):
-            return it[0] == 'INT' and it[1] == '2' and it[2].replace(' ', '') in ('(6+%s)' % PLEN, '(%s+6)' % PLEN)
+            return it[0] == 'INT' and it[1] == '2' and lin_norm(it[2]) == lin_norm('(6 + %s)' % PLEN)
         tpl = [C('99'), Pred('INT(2; 6 + publen)', len_pred), C('04'), Pred('INT(4; UTC seconds of created)', time_pred),
                INT(1, 'self.pkalg'), ('SLICE', [SYM(MAT)], '', PLEN)]
         ok, idx, msg = match(items, tpl)
         rep.check(ok, 'C18.1', 'PubKeyV4.fingerprint', msg or 'layout', 'fingerprint hash input differs from RFC 4880 12.2: %s' % msg,
                   where=fp.where, expected='C(99) INT(2;6+publen) C(04) INT(4;time) INT(1;pkalg) SLICE(material;;publen)',
                   found=render_items(items))
-        # result is the upper-case hex digest wrapped in Fingerprint
+        if ok or (hashed is None and len(items) >= 6):
+            hashed = items
+        # the value is the upper-case hex digest just taken, wrapped in Fingerprint
         r = render(s.ret)
-        rep.check(r.startswith('Fingerprint(hex(HASH(') and r.endswith('.upper())'), 'C18.1', 'PubKeyV4.fingerprint',
-                  'return %s' % r[:60], 'the fingerprint value must be the hex digest itself', where=fp.where, found=r[:200])
+        hx = 'hex(%s)' % render_item(('HASH', alg, list(raw_items)))
+        if r == 'Fingerprint(%s)' % hx:
+            # no .upper() here: sound only if Fingerprint itself upper-cases the text it is given
+            rep.check(fingerprint_uppercases(prog), 'C18.1', 'PubKeyV4.fingerprint', 'return %s' % r[:60],
+                      'the fingerprint value must be the upper-case hex digest (neither the method nor Fingerprint.__new__ upper-cases it)',
+                      where=fp.where, expected='Fingerprint(<hex digest>.upper())', found=r[:200])
+        else:
+            rep.check(r == 'Fingerprint(%s.upper())' % hx, 'C18.1', 'PubKeyV4.fingerprint',
+                      'return %s' % r[:60], 'the fingerprint value must be the hex digest itself', where=fp.where,
+                      expected='Fingerprint(<hex digest>.upper())', found=r[:200])
+
     # C18.2 agreement with the export
     ba = prog.method('pgpy.packet.packets', 'PubKeyV4', '__bytearray__')
     rep.saw(fn=ba)
     outs = Interp(prog, Scenario()).run(ba)
     for s in outs:
+        if s.raised:
+            continue
         if not isinstance(s.ret, Bytes):
             raise AnalysisError('PubKeyV4.__bytearray__ does not return bytes')
-        its = merge_consts(s.ret.items)
-        exp_tail = None
+        its = norm_fp_items(s.ret.items)
         if hashed is not None and len(hashed) >= 6:
             time_term, alg_term = hashed[3], hashed[4]
             found_tail = its[1:]
             ok = len(found_tail) == 3 and found_tail[0] == time_term and found_tail[1] == alg_term and \
-                found_tail[2] == ('SYM', 'self.keymaterial.__bytearray__()')
+                found_tail[2] == ('SYM', MAT)
             rep.check(ok, 'C18.2', 'PubKeyV4.__bytearray__', 'body terms %s' % render_items(found_tail),
                       'the exported packet body (after the version octet) must be the very terms the fingerprint hashes',
-                      where=ba.where, expected='%s %s self.keymaterial.__bytearray__()' % (render_item(time_term), render_item(alg_term)),
+                      where=ba.where, expected='%s %s %s' % (render_item(time_term), render_item(alg_term), MAT),
                       found=render_items(found_tail))
-        rep.check(bool(its) and its[0][0] == 'SYM' and 'header' in its[0][1], 'C18.2', 'PubKeyV4.__bytearray__', 'first term %s' % render_item(its[0]),
+        rep.check(bool(its) and its[0] == ('SYM', 'self.header.__bytearray__()'), 'C18.2', 'PubKeyV4.__bytearray__',
+                  'first term %s' % (render_item(its[0]) if its else None),
                   'the packet starts with its header (tag, length, version octet)', where=ba.where)
     ver = ci.attrs.get('__ver__')
-    rep.check(ver is not None and ast.literal_eval(ver) == 4, 'C18.2', 'PubKeyV4.__ver__', '__ver__ = %s' % (ast.unparse(ver) if ver is not None else None),
+    try:
+        ver_ok = ver is not None and ast.literal_eval(ver) == 4
+    except ValueError:
+        ver_ok = False
+    rep.check(ver_ok, 'C18.2', 'PubKeyV4.__ver__', '__ver__ = %s' % (ast.unparse(ver) if ver is not None else None),
               'the version octet exported by the header must be the 04 the fingerprint hashes', where=ci.where)
     vh = prog.method('pgpy.packet.types', 'VersionedHeader', '__bytearray__')
-    for s in Interp(prog, Scenario(inline=lambda f: False)).run(vh):
-        r = render(s.ret)
-        rep.check(r.endswith('BYTE(self.version)'), 'C18.2', 'VersionedHeader.__bytearray__', 'return %s' % r,
-                  'the versioned header ends with the version octet', where=vh.where, found=r)
-    # parse side: created <- 4 octets, pkalg <- 1 octet, material bounded by header.length - 6  (6 = 1 + 4 + 1)
+    for s in Interp(prog, Scenario(inline=noinline)).run(vh):
+        if s.raised:
+            continue
+        its = norm_fp_items(s.ret.items) if isinstance(s.ret, Bytes) else []
+        rep.check(bool(its) and its[-1] == ('INT', '1', 'self.version'), 'C18.2', 'VersionedHeader.__bytearray__', 'return %s' % render(s.ret),
+                  'the versioned header ends with the version octet', where=vh.where, found=render(s.ret))
+    # parse side: created <- 4 octets, pkalg <- 1 octet, then the material: header.length - 6 octets (6 = version 1 + time 4 + algorithm 1),
+    # i.e. the key material parser receives packet[5 : header.length - 1] of the body that follows the version octet
     pp = prog.method('pgpy.packet.packets', 'PubKeyV4', 'parse')
-    src = ast.unparse(pp.node)
-    rep.check('self.header.length - 6' in src, 'C18.2', 'PubKeyV4.parse', 'material bound',
-              'the key material occupies header.length - 6 octets (version, time, algorithm = 6)', where=pp.where)
+    rep.saw(fn=pp)
+    buf = pp.params[1]
+    want = sl(buf, (4, ''), (1, ''), ('', '(self.header.length - 6)'))
+    n_ok = 0
+    for s in Interp(prog, Scenario(inline=noinline, forward_stores=False)).run(pp):
+        if s.raised:
+            continue
+        n_ok += 1
+        got = [c[1][0] if c[1] else None for c in s.calls if c[0] == 'self.keymaterial.parse']
+        rep.check(got == [want], 'C18.2', 'PubKeyV4.parse', 'material bound: keymaterial.parse(%s)' % got,
+                  'the key material occupies header.length - 6 octets after the 4 time octets and the algorithm octet (version, time, algorithm = 6)',
+                  where=pp.where, expected=want, found=got)
+    if not n_ok:
+        raise AnalysisError('PubKeyV4.parse never returns')
 
-    # C18.3 publen resolution
+    # C18.3 publen: the length term computed for a private object is the term its public sibling's __len__ computes
     f, tbl = tables.keymaterial_table(prog)
     fields = prog.module('pgpy.packet.fields')
     algs = sorted(set(a for (_, a) in tbl))
@@ -124,60 +192,67 @@ def run(rep, prog, tier):
         if pub is None or priv is None:
             raise AnalysisError('key material class for %s not found in fields.py' % a)
         rep.saw(cls=priv)
-        pub_len = pub.find_method('__len__')
-        target = resolve_publen(prog, priv)
-        pubt = resolve_publen(prog, pub)
-        rep.check(target is pub_len, 'C18.3', '%s.publen' % priv.name,
-                  'publen -> %s' % (target.qualname if target else None),
+        pub_len = length_term(prog, pub, '__len__')
+        target = length_term(prog, priv, 'publen')
+        pubt = length_term(prog, pub, 'publen')
+        if pub_len is None:
+            raise AnalysisError('%s.__len__ not found' % pub.name)
+        rep.check(target == pub_len, 'C18.3', '%s.publen' % priv.name,
+                  'publen -> %s' % (target,),
                   'the hashed prefix of a private key must be exactly the public material of %s' % pub.name, where=priv.where,
-                  expected=pub_len.qualname if pub_len else None, found=target.qualname if target else None, scenario=a)
-        rep.check(pubt is pub_len, 'C18.3', '%s.publen' % pub.name, 'publen -> %s' % (pubt.qualname if pubt else None),
-                  'publen of a public key is its own length', where=pub.where, scenario=a)
+                  expected=pub_len, found=target, scenario=a)
+        rep.check(pubt == pub_len, 'C18.3', '%s.publen' % pub.name, 'publen -> %s' % (pubt,),
+                  'publen of a public key is its own length', where=pub.where, expected=pub_len, found=pubt, scenario=a)
 
     # C18.4
     fc = prog.cls('pgpy.types', 'Fingerprint')
-    for name, n in (('keyid', -16), ('shortid', -8)):
+    for name, n in (('keyid', 16), ('shortid', 8)):
         g = fc.methods.get(name)
         if g is None:
             raise AnalysisError('Fingerprint.%s vanished' % name)
-        for s in Interp(prog, Scenario(inline=lambda f: False)).run(g):
+        for s in Interp(prog, Scenario(inline=noinline)).run(g):
             r = render(s.ret)
-            rep.check(r == 'SLICE(self;%d;)' % n, 'C18.4', 'Fingerprint.%s' % name, 'return %s' % r,
-                      'the key id is the low-order %d bits of the fingerprint' % (-n * 4), where=g.where,
-                      expected='self[%d:]' % n, found=r)
+            rep.check(low_digits(r, g.params[0]) == n, 'C18.4', 'Fingerprint.%s' % name, 'return %s' % r,
+                      'the key id is the low-order %d bits of the fingerprint' % (n * 4), where=g.where,
+                      expected='self[-%d:]' % n, found=r)
     kf = prog.method('pgpy.pgp', 'PGPKey', 'fingerprint')
-    rets = [render(s.ret) for s in Interp(prog, Scenario(inline=lambda f: False, axioms={'self._key': True})).run(kf)]
-    rep.check('self._key.fingerprint' in rets, 'C18.4', 'PGPKey.fingerprint', 'returns %s' % rets,
-              'the key object reports the fingerprint of its key packet', where=kf.where, found=rets)
+    rets = sorted(set(render(s.ret) for s in Interp(prog, Scenario(inline=noinline)).run(kf) if not s.raised))
+    some = [r for r in rets if r != 'None']
+    rep.check(some == ['self._key.fingerprint'], 'C18.4', 'PGPKey.fingerprint', 'returns %s' % rets,
+              'the key object reports the fingerprint of its key packet', where=kf.where, expected='self._key.fingerprint', found=rets)
     families.check_pubkey_derivation(rep, prog, 'C18.6')
     families.check_ids_rooted_at_self(rep, prog, 'C18.7')
     # C18.5 time idiom
     check_time_sites(rep, prog, 'C18.5', only=('PubKeyV4.fingerprint', 'PubKeyV4.__bytearray__'))
 
 
-def resolve_publen(prog, cls):
-    """Follow publen() to the __len__ it returns: `return len(self)`, `return super(K, self).__len__()`, `return K.__len__(self)`."""
-    f = cls.find_method('publen')
-    if f is None:
+LEN_POLICY = lambda f: f.name in ('__len__', 'publen')  # noqa: E731
+
+
+def length_term(prog, cls, meth):
+    """The term `cls().<meth>()` computes, with the length methods of the key-material classes resolved along the C3 MRO of
+    `cls` and inlined (`len(self)`, `super().__len__()`, `K.__len__(self)`, temporaries: all the same term).  One text per
+    method; several paths give 'ALT(..)'.  None if the class has no such method."""
+    fi = cls.find_method(meth)
+    if fi is None:
         return None
-    rets = [n for n in ast.walk(f.node) if isinstance(n, ast.Return)]
-    if len(rets) != 1 or rets[0].value is None:
-        return None
-    v = rets[0].value
-    if isinstance(v, ast.Call) and isinstance(v.func, ast.Name) and v.func.id == 'len' and len(v.args) == 1 and \
-            isinstance(v.args[0], ast.Name) and v.args[0].id == f.params[0]:
-        return cls.find_method('__len__')
-    if isinstance(v, ast.Call) and isinstance(v.func, ast.Attribute) and v.func.attr == '__len__':
-        b = v.func.value
-        if isinstance(b, ast.Call) and dotted(b.func) == 'super':
-            if b.args:
-                k = prog.resolve_class_expr(f.module, b.args[0])
-            else:
-                k = f.cls
-            if k is None:
-                return None
-            return cls.find_method('__len__', after=k)
-        k = prog.resolve_class_expr(f.module, b)
-        if k is not None:
-            return k.find_method('__len__')
-    return None
+    outs = Interp(prog, Scenario(self_cls=cls, inline=LEN_POLICY, max_depth=5)).run(fi)
+    texts = []
+    for s in outs:
+        t = 'raise %s' % s.raised if s.raised else alpha(lin_norm(render(s.ret)))
+        if t not in texts:
+            texts.append(t)
+    return texts[0] if len(texts) == 1 else 'ALT(%s)' % ' | '.join(sorted(texts))
+
+
+def fingerprint_uppercases(prog):
+    """Fingerprint.__new__ makes its value from the upper-cased text on every path that builds a new object."""
+    fc = prog.cls('pgpy.types', 'Fingerprint')
+    fnew = fc.methods.get('__new__')
+    if fnew is None or len(fnew.params) < 2:
+        return False
+    content = fnew.params[1]
+    made = [render(s.ret) for s in Interp(prog, Scenario(inline=noinline, axioms={'isinstance(%s, Fingerprint)' % content: False})).run(fnew)
+            if not s.raised]
+    return bool(made) and all(re.match(r'^str\.__new__\(cls, %s(\.replace\(\' \', \'\'\))?\.upper\(\)(\.replace\(\' \', \'\'\))?\)$' % re.escape(content), m)
+                              for m in made)
